@@ -252,13 +252,14 @@ def read_cgsmiles(pattern):
         # last residue of a branch (i.e. '...[#residue])'
         # that is the case if the branch closure comes before
         # any new atom begins
-        branch_stop = _find_next_character(pattern, ['['], stop) >\
-                      _find_next_character(pattern, [')'], stop)
-
-        # if the branch ends we reset the anchor
-        # and set branching False unless we are in
-        # a nested branch
-        if stop <= len(pattern) and branch_stop:
+        # several branches may end after the same residue
+        # (i.e. '...[#residue]))') so we go through all of them
+        cursor = stop
+        while _find_next_character(pattern, ['['], cursor) >\
+              _find_next_character(pattern, [')'], cursor):
+            # if the branch ends we reset the anchor
+            # and set branching False unless we are in
+            # a nested branch
             branching = False
             prev_node = branch_anchor.pop()
             if branch_anchor:
@@ -269,7 +270,7 @@ def read_cgsmiles(pattern):
             # We need to know how often the branch has
             # to be added so we first identify the branch
             # terminal character ')' called eon_a.
-            eon_a = _find_next_character(pattern, [')'], stop)
+            eon_a = _find_next_character(pattern, [')'], cursor)
             # Then we check if the expansion character
             # is next.
             if (eon_a+1 < len(pattern) and pattern[eon_a+1] == "|") or\
@@ -330,6 +331,7 @@ def read_cgsmiles(pattern):
             # when all nested branches are completed
             if len(branch_anchor) == 0:
                 recipes = defaultdict(list)
+            cursor = eon_a + 1
 
     # raise some errors for strange stuff
     if cycle:
